@@ -45,6 +45,7 @@ EditOps == <<"table_name", "table_schema", "table_alias", "table_note", "col_nam
 
 \* the i-th edit of a seed, chosen in the current model m (positions must exist; otherwise "skip")
 ChooseEdit(sd, i, m) ==
+  IF m.tables = <<>> THEN [op |-> "skip"] ELSE
   LET op == Pick(sd, K(50 + i, 0, 1), EditOps)
       t == Num(sd, K(50 + i, 0, 2), 1, Len(m.tables))
       c == Num(sd, K(50 + i, 0, 3), 1, Len(m.tables[t].cols))
